@@ -114,7 +114,8 @@ func (fr *Frame) modStore(addr ssa.Value, ms *modSet, bind map[*ssa.FreeVar]ssa.
 		case *types.Pointer:
 			el = t.Elem().Underlying().(*types.Array).Elem()
 		}
-		ms.whole(heapSliceName(w.sortOf(el)))
+		// the backing array of the indexed slice / array (a slice value stands for its base)
+		ms.at(heapSliceName(w.sortOf(el)), resolveBind(a.X, bind))
 	case *ssa.Global:
 		ms.whole("G." + a.Pkg.Pkg.Path() + "." + a.Name())
 	default:
@@ -366,19 +367,42 @@ func (fr *Frame) loopHeader(li *loopInfo, b *ssa.BasicBlock, preds []*ssa.BasicB
 				}
 			}
 			cur := st.Get(name, so)
-			pointwise := !t.whole && len(so) > 7 && so[:7] == "(Array "
+			pointwise := !t.whole && len(so) > 11 && so[:11] == "(Array Int "
+			freshRegion := false
+			var outside []ssa.Value
 			if pointwise {
 				for _, r := range t.refs {
-					if !definedOutside(r, li) {
+					if definedOutside(r, li) {
+						outside = append(outside, r)
+					} else if a, ok := r.(*ssa.MakeSlice); ok && li.body[a.Block().Index] {
+						freshRegion = true
+					} else if a, ok := r.(*ssa.Alloc); ok && li.body[a.Block().Index] {
+						// memory allocated inside the loop: only references >= the allocation counter at
+						// loop entry are written
+						freshRegion = true
+					} else {
 						pointwise = false
 					}
 				}
 			}
 			if pointwise {
 				_, el := splitSortPair(so[7 : len(so)-1])
-				for _, r := range t.refs {
+				if freshRegion {
+					base := enc.declare("lhb_"+name, so)
+					cntEntry := entry.Get("$cnt", "Int")
+					q := Leaf(fmt.Sprintf("q_lh_%d", w.fresh()))
+					enc.assume(A("forall", A("(("+q.Op+" Int))"),
+						A("!", Implies(Lt(q, cntEntry), Eq(Select(base, q), Select(cur, q))), Leaf(":pattern"), A("", Select(base, q)))),
+						"loop writes "+name+" only at references allocated inside the loop (or listed)")
+					cur = base
+				}
+				for _, r := range outside {
 					fv := enc.declare("hv_"+name, el)
-					cur = Store(cur, fr.val(r), fv)
+					ref := fr.val(r)
+					if _, isSlice := r.Type().Underlying().(*types.Slice); isSlice {
+						ref = A("s_base", ref)
+					}
+					cur = Store(cur, ref, fv)
 				}
 				st.Set(name, enc.define("lh_"+name, so, cur))
 			} else {
